@@ -168,3 +168,16 @@ Fixpoint dwarf_calls (le is64 : bool) (em : Z) (secs : list sec) (section : sec)
       let (rest, st2) := dwarf_calls le is64 em secs section st1 r in
       (a :: rest, st2)
   end.
+
+(* ---------- get_dwarf_info through .gnu_debuglink ---------- *)
+(* ELFFile.get_dwarf_info: `if debuglink_section and not self.has_dwarf_info(True) and follow_links
+   and self.stream_loader:` the separate debug file is opened, its CRC32 compared with the link's
+   (ELFError on mismatch) and `ext_elffile.get_dwarf_info(relocate_dwarf_sections=
+   relocate_dwarf_sections, follow_links=True)` is returned: the caller's flag goes with it.
+   Otherwise the file's own sections are loaded.  [linked] / [own] are what loading the section from
+   the debug file / from this file gives for a flag (read_dwarf_section on the respective image). *)
+Definition dwarf_via_debuglink (has_link has_own_debug_info crc_matches : bool)
+           (linked own : bool -> res (list Z)) (relocate_dwarf_sections : bool) : res (list Z) :=
+  if has_link && negb has_own_debug_info then
+    (if crc_matches then linked relocate_dwarf_sections else Err EElf)
+  else own relocate_dwarf_sections.
